@@ -59,6 +59,18 @@ def _deref(fl, expr, at):
     return expr, at
 
 
+def _require_followed(repo, fi, leaves, what):
+    """A value handed out by a helper of the analysed package that the front-end could not dissolve into the caller
+    cannot be judged here: analysis gap, not a violation."""
+    from ..effects import callee_of
+    for l in leaves:
+        v = l.value
+        if isinstance(v, ast.Call):
+            callee = callee_of(repo, fi, v)
+            if callee is not None and callee.name.startswith('_') and (l.opaque or True):
+                raise AnalysisError('%s: %s is computed by %s, which could not be followed' % (fi.qualname, what, callee.qualname))
+
+
 def _kwarg_name(fi):
     a = fi.node.args
     return a.kwarg.arg if a.kwarg is not None else None
@@ -463,6 +475,7 @@ def _r10d(rep, app, route):
     ps = bi.params()
     fnames, fpops = popped_flags(bi, 'rebind_render_error')
     lv = fl.leaves(_expr('self.render_error'), 'exit')
+    _require_followed(repo, bi, lv, 'self.render_error')
 
     def flag_is(leaf, pol):
         return any(p is pol and _is_flag(norm(t), fnames, fpops) for t, p in leaf.conds)
@@ -556,6 +569,7 @@ def _r10e_render(rep, app, route):
     ur_render = '%s.render' % fl.text(ur.value, ur.stmt)
     prev_render = '%s.render' % ps[1]
     lv = fl.leaves(_expr('self.render'), 'exit')
+    _require_followed(rep.repo, bi, lv, 'self.render')
     ctx = dict((id(l), fl.cond_texts(l.conds)) for l in lv)
 
     def cond(l, text, pol):
